@@ -5,6 +5,7 @@
 import BS.Proofs.CacheReopen
 import BS.Proofs.AnyMix
 import BS.Proofs.CacheDev
+import BS.Proofs.CacheGen
 
 namespace BS.Props.C09
 open BS BS.Impl
@@ -168,6 +169,70 @@ theorem kept_bucket_is_the_only_deviation (hdr ihdr : Bytes) (st : Store) (c : C
   rw [hB', hp'] at hagree
   rw [hp'] at hL hvL
   exact ⟨st', c', L, hfeed, hB', hp', hL, hvL, hagree⟩
+
+/-! ### the repeated form: any number of crashes
+
+`CacheInvD … xs L D`: the cache file is `header ++ encode L` for a valid history `L` that agrees
+with the bucket means of the source history `xs` in every position outside the set `D` of
+deviating buckets (`cache_state_meaning`); with `D` empty that is exactly the file of an
+uninterrupted session (`no_deviation_is_exact`), and the invariant C08 proves from creation on
+is the case `D = ∅` (`cacheInvD_of_cacheInv`).  The two theorems below make it an inductive
+invariant of everything that can happen to a cache level: appends keep it with the same `D`;
+a crash that loses ANY tail of the source and cuts the cache file at ANY byte, followed by
+`open`, re-establishes it with `D` grown by at most the one bucket straddling the end of the
+surviving lines.  So after any mix of appends, reopens and crashes the open never fails or
+panics and at most one bucket per crash deviates from the uninterrupted-session state. -/
+
+/-- appends keep the general invariant, `D` unchanged -/
+theorem appends_keep_general_invariant (hdr ihdr : Bytes) (D : Nat → Prop) (ys : List Entry) (st : Store) (c : CacheSess)
+    (xs L : List Entry) (h : CacheInvDLT hdr ihdr st c xs L D) (hv : Valid c.d.p (xs ++ ys)) :
+    ∃ st' c' L', feedLines st c ys = .ok (st', c') ∧ c'.B = c.B ∧ c'.d.p = c.d.p ∧
+      CacheInvDLT hdr ihdr st' c' (xs ++ ys) L' D :=
+  feedLinesD hdr ihdr D ys st c xs L h hv
+
+/-- **`open` after ANY crash.**  A session over the history `xs ++ lost` left a cache in the state
+`CacheInvD … L0 D` (so its file is `header ++ encode L0`).  Crash: the source comes back as `xs`
+(C05), the cache data file is cut at any byte `n`, its index is in any legitimate prior state.
+`open_or_create` succeeds and re-establishes the invariant for `xs`; `D` grows by at most the
+bucket `xs.length / B` straddling the end of the surviving lines. -/
+theorem cache_reopened_after_any_crash (shdr sihdr : Bytes) (dir : Dir) (src : DataSess) (xs lost : List Entry)
+    (B : Nat) (cb : Option Bool)
+    (hsrc : DataInv shdr sihdr dir.main src xs) (hv : Valid src.p xs)
+    (hB : 1 ≤ B) (hB32 : B ≤ 2^32) (hH : (cacheUserHeader B).length ≤ 65535)
+    (st0 : Store) (c0 : CacheSess) (L0 : List Entry) (D : Nat → Prop)
+    (hc0B : c0.B = B) (hc0p : c0.d.p = src.p)
+    (hbefore : CacheInvDLT (cacheHdr B) cacheIhdr st0 c0 (xs ++ lost) L0 D)
+    (hc : TailClean src.p L0) (hsize : (Spec.encode src.p L0).length < 2^64)
+    (n : Nat) (hdata : (dir.cache B).data = some (cacheHdr B ++ (Spec.encode src.p L0).take n))
+    (hix : IndexState src.p L0 (dir.cache B).index) :
+    ∃ dir' c L', cacheOpenOrCreate dir B src cb = (dir', .ok c) ∧ c.B = B ∧ c.d.p = src.p ∧ dir'.main = dir.main ∧
+      (∀ B', B' ≠ B → dir'.cache B' = dir.cache B') ∧
+      CacheInvDLT (cacheHdr B) cacheIhdr (dir'.cache B) c xs L' (fun i => D i ∨ i = xs.length / B) := by
+  obtain ⟨hag, hbd⟩ := crash_hyps _ _ st0 c0 xs lost L0 D hbefore
+  obtain ⟨_, hvL, _⟩ := cacheInvD_content _ _ st0 c0 (xs ++ lost) L0 D hbefore
+  rw [hc0B, hc0p] at hag
+  rw [hc0B] at hbd
+  rw [hc0p] at hvL
+  have hfo : fileOpenExisting (dir.cache B).data
+      = .ok (4 + (cacheUserHeader B).length, cacheUserHeader B) := by
+    rw [hdata]; exact outerHdr_open _ _ hH
+  have : cacheOpenOrCreate dir B src cb = cacheOpen dir B src cb := by
+    unfold cacheOpenOrCreate; rw [hfo]
+  rw [this]
+  exact cacheOpenD shdr sihdr dir src xs B cb hsrc hv hB hB32 hH L0 D hvL hc hsize n hdata hix hag hbd
+
+/-- what the general invariant says about the file -/
+theorem cache_state_meaning (hdr ihdr : Bytes) (st : Store) (c : CacheSess) (xs L : List Entry) (D : Nat → Prop)
+    (h : CacheInvDLT hdr ihdr st c xs L D) :
+    st.data = some (hdr ++ Spec.encode c.d.p L) ∧ Valid c.d.p L ∧
+      ∀ i, ¬ D i → L[i]? = (Spec.bucketMeans c.B (Spec.linMean c.d.p) xs)[i]? :=
+  cacheInvD_content hdr ihdr st c xs L D h
+
+/-- with no deviating bucket it is the uninterrupted-session file, byte for byte -/
+theorem no_deviation_is_exact (hdr ihdr : Bytes) (st : Store) (c : CacheSess) (xs L : List Entry)
+    (h : CacheInvDLT hdr ihdr st c xs L (fun _ => False)) :
+    st.data = some (hdr ++ Spec.encode c.d.p (Spec.bucketMeans c.B (Spec.linMean c.d.p) xs)) :=
+  (cacheInvD_exact hdr ihdr st c xs L h).2
 
 /-- a cache file shorter than its declared header is one of the covered states -/
 example (p B : Nat) (xs : List Entry) : CacheReopenOK p B xs { data := some [7] } :=
